@@ -1,6 +1,6 @@
 SPECIFICATION Spec
 CONSTANTS
-  Modes = {"check", "pubkey", "direct", "persp"}
+  Modes = {"check", "pubkey", "direct", "persp", "dup"}
   Tier = "quick"
-INVARIANTS SaneDirect SanePersp SaneCheck SanePubKey Emit
+INVARIANTS SaneDirect SanePersp SaneCheck SanePubKey DupOnlySigned DupCheckOnlySigned DupSane Emit
 CHECK_DEADLOCK FALSE
